@@ -27,10 +27,19 @@ opn = ['| property | open findings (id — what, first sentence) |', '|---|---|'
 for p in sorted(op):
     items = ['`%s` — %s' % (f['id'], re.split(r'(?<=[a-z\)])[:;.] ', f['what'])[0][:160].replace('|', '\\|')) for f in op[p]]
     opn.append('| %s (%d) | %s |' % (p, len(items), '<br>'.join(items)))
+import glob, os
+seeds = ['| seed | the change | caught by (quick tier unless noted) | missed by / what was strengthened |', '|---|---|---|---|']
+for mp in sorted(glob.glob('/verif/seeded/*/meta.json')):
+    m = json.load(open(mp))
+    cr = m.get('checks_run', {})
+    cell = lambda xs: '<br>'.join(x.replace('|', '\\|') for x in xs) if xs else '—'
+    summ = m.get('summary', '').replace('|', '\\|')
+    seeds.append('| %s | %s | %s | %s |' % (os.path.basename(os.path.dirname(mp)), summ[:260] + ('…' if len(summ) > 260 else ''), cell(cr.get('caught_by', [])), cell(cr.get('missed_by', []))))
 s = open('/verif/DESIGN.md').read()
-for name, body in (('fixes', fix), ('open', opn)):
+for name, body in (('fixes', fix), ('open', opn), ('seeds', seeds)):
     a, b = '<!-- gen:%s -->' % name, '<!-- /gen:%s -->' % name
     if a in s:
         s = s[:s.index(a) + len(a)] + '\n' + '\n'.join(body) + '\n' + s[s.index(b):]
 open('/verif/DESIGN.md', 'w').write(s)
+print('seeds:', len(seeds) - 2)
 print('fix commits:', len(order), 'fixed findings:', sum(len(v) for v in rows.values()), 'open findings:', sum(len(v) for v in op.values()))
